@@ -50,6 +50,8 @@ CORPUS = [
     case([[1, -1, 0, 0, 0], [0, 0, 1, -1, 0]], 5),
     case([[0]], 1), case([[2]], 1), case([], 2), case([[]], 0), case([], 0),
     case([[0, 0], [0, 0]], 2),
+    case([[2 ** 40, -3 * 2 ** 40, 2 ** 40]], 3),        # huge entries (dot products beyond 64 bits)
+    case([[10 ** 15, 10 ** 15, -10 ** 15, -10 ** 15], [1, -1, 1, -1]], 4),
     # `basis` not empty on entry (not cleared by the function; equal vectors pass is_minimum)
     case([[1, -1]], 2, [[1, 1]]), case([[1, -1]], 2, [[2, 2]]), case([[1, -2]], 2, [[1, 0]]),
     case([[1, -1]], 2, [[5]]), case([[-1, 1]], 2, [[0]]), case([[-1, 1]], 2, [[]]),
@@ -93,6 +95,10 @@ def rand_matrix(rng, tier):
         rows[0] = [abs(a) for a in rows[0]]
     elif s < 0.40:                   # entries 0 / +-1 (totally-unimodular-like)
         rows = [[rng.choice([-1, 0, 1]) for _ in range(q)] for _ in range(p)]
+    elif s < 0.46:                   # huge entries: a row scaled by 2^40 / 10^15 (same solutions, multi-limb dot products)
+        k = rng.choice([2 ** 40, 10 ** 15, -(2 ** 33)])
+        r = rng.randrange(p)
+        rows[r] = [k * a for a in rows[r]]
     return rows, q
 
 
@@ -138,12 +144,15 @@ def exhaustive(p, q, m):
 
 def parse_basis(s):
     """'B:1,1|2,0,1' -> list of tuples; None for an error line"""
-    if not s.startswith("B:"):
+    if not s.startswith("B:") or "HANG" in s or "CRASH" in s:
         return None
     body = s[2:]
     if body == "":
         return []
-    return [tuple(int(x) for x in v.split(",")) if v != "" else () for v in body.split("|")]
+    try:
+        return [tuple(int(x) for x in v.split(",")) if v != "" else () for v in body.split("|")]
+    except ValueError:
+        return None
 
 
 def run(ctx):
@@ -169,15 +178,16 @@ def run(ctx):
     ctx.cov["distinct_nontrivial"] = len(ctx.stats["nontrivial"])
     ctx.cov["rule"] = ("integer matrices p x q (p <= 3, q <= 5, entries mostly in [-3,3], a quarter up to +-7) from one PRNG, shaped "
                        "towards the case splits of the proofs (zero / repeated / negated columns, dependent or zero rows, one-signed rows, "
-                       "0/+-1 matrices, empty shapes), a fixed corpus, complete small universes (quick: 1x3 in [-2,2], 1x2 in [-4,4]; thorough: "
+                       "0/+-1 matrices, rows scaled by 2^40 or 10^15, empty shapes), a fixed corpus, complete small universes (quick: 1x3 in [-2,2], 1x2 in [-4,4]; thorough: "
                        "1x2 [-6,6], 1x3 [-3,3], 1x4 [-3,3], 2x3 [-2,2], 2x4 [-1,1], 3x3 [-1,1]), and 10% calls with a non-empty `basis` on entry; "
                        "plus unit-level cases for is_minimum/order (vectors with entries 0..3, basis elements equal / below / above / random); "
                        "a case is non-trivial when the library returns at least two vectors or a vector of 1-norm >= 3 (unit level: a non-empty basis); "
                        "distinct = distinct case lines")
     ctx.assumptions += [
         "termination of the while loop is NOT proved in general (Contejean-Devie's termination argument is analytic): all theorems are about "
-        "runs that end (`= Ok basis`); lde_fuel_mono shows the result does not depend on the fuel; lde_terminates_small proves termination by a "
-        "complete sweep of the matrices up to 2x3 with entries in [-2,2]; on every explored case the model's fuel (400000 iterations) sufficed",
+        "runs that end (`= Ok basis`); lde_fuel_mono shows the result does not depend on the fuel; lde_terminates_small proves termination (within "
+        "400 iterations) by complete kernel sweeps of the matrices up to 2x3 with entries in [-2,2], 1x4 in [-3,3], 3x3 and 2x4 in {-1,0,1}; "
+        "on every explored case the model's fuel (400000 iterations) sufficed and the library returned within its 6 s limit",
         "Integer arithmetic (GMP) is exact: modelled by Z; DenseMatrix::mul_matrix / transpose / eq as their loops over m_",
         "the std::vector P used as a stack is modelled by a list whose head is back(); Frozen/F by lists of bools with checked indices",
         "the matrix entries are Integers (the function's SYMENGINE_ASSERTs; rcp_static_cast on other types is outside the model)",
@@ -267,6 +277,9 @@ def replay(ctx, rep):
     drv = ctx.build_driver("c46_driver")
     model = ctx.build_model("C46", "C46/Extract.v", "c46_main.ml", "lde_model")
     c = rep["replay"]["case"]
-    print("case :", c, "   (p q box n0, then the entries of A row by row, then the rows `basis` holds on entry)")
+    if c.startswith("M"):
+        print("case :", c, "   (M q n, the vector t, then the n basis vectors; output m:<is_minimum>;o:<order per k>)")
+    else:
+        print("case :", c, "   (p q box n0, then the entries of A row by row, then the rows `basis` holds on entry)")
     print("impl :", ctx.run_lines(drv, [c])[0])
     print("model:", ctx.run_lines(model, [c])[0])
